@@ -100,3 +100,44 @@ Example C11_failure_surfaces_example :
   let '(s', rs) := run_calls (fun _ _ x => x) (fun _ => 0) (new_writer [WShort 1; WFail; WShort 2]) [KStartFile [Byte.x61] o; KFinish] in
   map is_ok rs = [false; true] /\ pl s' = [].
 Proof. vm_compute. split; reflexivity. Qed.
+
+(* ---------- error or identical result, for every plan of the sink (short writes and failures anywhere, any number).
+   Run any program of Result-returning calls over such a sink.  Either some call reports an error, or every call
+   returned exactly what it returns over a sink that never fails and never splits a write -- including the archive
+   bytes handed back by finish() -- and the sink holds the same bytes.  (No call panics either: C11_no_panic_under_faults.)
+   Proof: Proofs/OkSim.v, a one-sided simulation along the all-Ok paths of the whole writer state machine: an Ok
+   result means every sink operation on the way returned Ok, and a sink operation that returned Ok did what the
+   ideal sink does. *)
+From ZipV Require Import Proofs.OkSim.
+Theorem C11_error_or_identical : forall enc crc plan calls s1' results,
+  Forall (fun c => c <> KDrop) calls -> run_calls enc crc (new_writer plan) calls = (s1', results) ->
+  (exists r, In r results /\ is_ok r = false) \/
+  (exists s2', run_calls enc crc (new_writer []) calls = (s2', results) /\ sink_bytes s1' = sink_bytes s2').
+Proof.
+  intros enc crc plan calls s1' rs Hnd Hrun.
+  destruct (forallb is_ok rs) eqn:E.
+  - right. destruct (run_calls_ok enc crc calls _ _ _ _ (S_new plan [] (Forall_nil _)) Hnd Hrun E) as (s2' & E2 & HS).
+    exists s2'. split; [exact E2|exact (S_sink enc crc _ _ HS)].
+  - left. assert (X : existsb (fun r => negb (is_ok r)) rs = true).
+    { clear -E. induction rs as [|r rs IH]; [discriminate|]. cbn [forallb existsb] in *.
+      destruct (is_ok r); cbn [negb andb orb] in *; [now apply IH|reflexivity]. }
+    apply existsb_exists in X as (r & Hin & Hr). exists r. split; [exact Hin|]. now destruct (is_ok r).
+Qed.
+Print Assumptions C11_error_or_identical.
+
+Theorem C11_error_or_identical_append : forall enc crc data plan s1 calls s1' results,
+  new_append data plan = Ok s1 -> Forall (fun c => c <> KDrop) calls -> run_calls enc crc s1 calls = (s1', results) ->
+  (exists r, In r results /\ is_ok r = false) \/
+  (exists s2 s2', new_append data [] = Ok s2 /\ run_calls enc crc s2 calls = (s2', results) /\ sink_bytes s1' = sink_bytes s2').
+Proof.
+  intros enc crc data plan s1 calls s1' rs Hna Hnd Hrun.
+  destruct (forallb is_ok rs) eqn:E.
+  - right. destruct (S_new_append data plan [] s1 (Forall_nil _) Hna) as (s2 & E0 & HS0).
+    destruct (run_calls_ok enc crc calls _ _ _ _ HS0 Hnd Hrun E) as (s2' & E2 & HS).
+    exists s2, s2'. split; [exact E0|]. split; [exact E2|exact (S_sink enc crc _ _ HS)].
+  - left. assert (X : existsb (fun r => negb (is_ok r)) rs = true).
+    { clear -E. induction rs as [|r rs IH]; [discriminate|]. cbn [forallb existsb] in *.
+      destruct (is_ok r); cbn [negb andb orb] in *; [now apply IH|reflexivity]. }
+    apply existsb_exists in X as (r & Hin & Hr). exists r. split; [exact Hin|]. now destruct (is_ok r).
+Qed.
+Print Assumptions C11_error_or_identical_append.
